@@ -31,16 +31,21 @@ def main():
         sid = m["seed_id"]
         pid = m["property"]
         first = m["checks"].get(pid, {})
-        re_ = m.get("recheck", {}).get(pid, {})
+        rc_all = m.get("recheck", {})
+        re_ = rc_all.get(pid, {})
+        other = [k for k, v in rc_all.items() if k != pid and v.get("caught")]
         mech = ""
-        w = (re_ or first).get("witness", "")
+        w = (re_ if re_.get("caught") else (rc_all[other[0]] if other else (re_ or first))).get("witness", "")
         mm = re.search(r"mechanism=(\S+)", w)
         if mm:
             mech = mm.group(1)[:60]
-        rows.append((sid, pid, "caught" if first.get("caught") else "MISSED", ("caught" if re_.get("caught") else "MISSED") if re_ else "-", mech, first_sentence(m.get("needs_to_manifest", ""), sid)))
+        now = ("caught" if re_.get("caught") else "MISSED") if re_ else "-"
+        if now != "caught" and other:
+            now = "caught by " + "/".join(other)
+        rows.append((sid, pid, "caught" if first.get("caught") else "MISSED", now, mech, first_sentence(m.get("needs_to_manifest", ""), sid)))
     n = len(rows)
     c1 = sum(r[2] == "caught" for r in rows)
-    c2 = sum((r[3] == "caught") or (r[3] == "-" and r[2] == "caught") for r in rows)
+    c2 = sum(r[3].startswith("caught") or (r[3] == "-" and r[2] == "caught") for r in rows)
     out = [f"{n} changes kept (each: patch applies to HEAD, suite 267 passed / same 6 failures, demo exits 0 unchanged and non-zero changed). First run of the property's own quick check: **{c1}/{n} caught**; after strengthening: **{c2}/{n} caught**.", "", "| seed | property | first run | now | witness mechanism | what the change is / needs |", "|---|---|---|---|---|---|"]
     for r in rows:
         out.append("| " + " | ".join(r) + " |")
